@@ -167,6 +167,16 @@ func cp(s []int) []int {
 
 // Apply executes the instruction op on the real library.
 func Apply(op string, par Par, args []Tensor) (Tensor, error) {
+	switch op {
+	case "full":
+		return tensor.Full(cp(par.Shape), par.K.Float(), nil)
+	case "zeros":
+		return tensor.Zeros(cp(par.Shape), nil)
+	case "ones":
+		return tensor.Ones(cp(par.Shape), &tensor.Config{Device: tensor.CPU})
+	case "eye":
+		return tensor.Eye(par.Dim, nil)
+	}
 	a := args[0]
 	var b Tensor
 	if len(args) > 1 {
